@@ -36,6 +36,13 @@ def probes(i):
 def render(c):
     i = c["in"]
     item, fb = ITEM[i["target"]]
+    # the requested trait visibility rotates over the points of the lattice: gating must not depend on it
+    vis = ["pub ", "", "pub(crate) "][int(c["case"]) % 3]
+    text = c["text"]
+    if i["target"] == "trait":
+        item = item.replace("pub trait T", vis + "trait T", 1)
+    elif text.startswith("pub T"):
+        text = vis + text[4:]
     pu, pm = probes(i)
     uprobe = f'!::core::any::type_name::<{pu}>().contains("::fb::")' if pu else "::vt::has_impl!(::unimock::Unimock: T)"
     if i["target"] == "fnconc":     # no blanket impl exists for concrete dependencies: `Unimock: T` is a mock implementation too
@@ -43,7 +50,7 @@ def render(c):
     return f"""#[allow(non_camel_case_types, non_snake_case)]
 pub mod fb {{ {fb} }}
 #[allow(unused_imports)] use fb::*;
-#[::entrait::{i['macro']}({c['text']})]
+#[::entrait::{i['macro']}({text})]
 {item}
 pub fn probe() -> (bool, bool) {{
     ({uprobe}, !::core::any::type_name::<{pm}>().contains("::fb::"))
